@@ -255,7 +255,8 @@ func (x *Exec) heapArr(st *State, key string, elem *Sort) *Term {
 	}
 	for i := len(st.pending) - 1; i >= 0; i-- {
 		p := st.pending[i]
-		if (p.fi.heapAll && (p.fi.keep == nil || !p.fi.keep(key))) || (!p.fi.heapAll && p.fi.matches(key)) {
+		stable := x.isImmutableKey(key) || x.isStableKey(key)
+		if (p.fi.heapAll && !stable && (p.fi.keep == nil || !p.fi.keep(key))) || (!p.fi.heapAll && p.fi.matches(key) && (p.fi.heapKeys[key] || !stable)) {
 			a := x.b.Var(fmt.Sprintf("Hh%d.%s", p.id, key), ArraySort(RefSort, elem))
 			st.heap[key] = a
 			return a
@@ -370,12 +371,21 @@ func (x *Exec) isImmutableKey(k string) bool {
 	return false
 }
 
+func (x *Exec) isStableKey(k string) bool {
+	for _, im := range x.eng.cf.Stable {
+		if k == im || strings.HasPrefix(k, im+".") {
+			return true
+		}
+	}
+	return false
+}
+
 func (x *Exec) havocHeap(st *State, why string, keep func(key string) bool) {
 	if keep == nil {
-		keep = x.isImmutableKey
+		keep = func(k string) bool { return x.isImmutableKey(k) || x.isStableKey(k) }
 	} else {
 		k0 := keep
-		keep = func(k string) bool { return k0(k) || x.isImmutableKey(k) }
+		keep = func(k string) bool { return k0(k) || x.isImmutableKey(k) || x.isStableKey(k) }
 	}
 	for k, a := range st.heap {
 		if keep != nil && keep(k) {
@@ -1496,7 +1506,7 @@ func (x *Exec) havocLoopTargets(st *State, spec *LoopSpec, body ast.Node, extra 
 	if len(fi.heapKeys) > 0 {
 		// make sure arrays that will be written exist, then havoc the matching ones
 		for k, a := range st.heap {
-			if fi.matches(k) {
+			if fi.matches(k) && (fi.heapKeys[k] || !(x.isImmutableKey(k) || x.isStableKey(k))) {
 				st.heap[k] = x.b.Fresh("H."+k, a.Sort)
 			}
 		}
